@@ -230,4 +230,47 @@ theorem evalMemoList_pure (H : Bytes → Bytes) (W : Nat → Option Pre) :
     exact ⟨by rw [h1, h3], h4⟩
 end
 
+/-! ### values without identity never touch the memo -/
+
+mutual
+/-- no tracked identity anywhere: every node has `id = 0` and there is no back reference (scalars, keys, arrays, inline
+    types — and any compound value the harness did not give an identity) -/
+def Pre.untracked : Pre → Bool
+  | .lit _ => true
+  | .ref _ => false
+  | .node i ps => i == 0 && Pre.untrackedList ps
+  | .sorted ps => Pre.untrackedList ps
+def Pre.untrackedList : List Pre → Bool
+  | [] => true
+  | p :: ps => Pre.untracked p && Pre.untrackedList ps
+end
+
+mutual
+/-- For such a structure `hash_single` neither reads nor writes the memo, WHATEVER the memo contains (no soundness
+    assumption): the `Cache` state cannot influence it. -/
+theorem evalMemo_untracked (H : Bytes → Bytes) :
+    ∀ (p : Pre) (m : Memo), Pre.untracked p = true → evalMemo H p m = (evalPure H p, m)
+  | .lit b, m, _ => by simp [evalMemo, evalPure]
+  | .ref _, _, h => by simp [Pre.untracked] at h
+  | .node i ps, m, h => by
+    simp only [Pre.untracked, Bool.and_eq_true, beq_iff_eq] at h
+    obtain ⟨rfl, h2⟩ := h
+    simp only [evalMemo, ↓reduceIte, evalPure, evalMemoList_untracked H ps m h2]
+  | .sorted ps, m, h => by
+    simp only [Pre.untracked] at h
+    simp only [evalMemo, evalPure, evalMemoEach_untracked H ps m h]
+theorem evalMemoList_untracked (H : Bytes → Bytes) :
+    ∀ (ps : List Pre) (m : Memo), Pre.untrackedList ps = true → evalMemoList H ps m = (evalPureList H ps, m)
+  | [], m, _ => by simp [evalMemoList, evalPureList]
+  | p :: ps, m, h => by
+    simp only [Pre.untrackedList, Bool.and_eq_true] at h
+    simp only [evalMemoList, evalPureList, evalMemo_untracked H p m h.1, evalMemoList_untracked H ps m h.2]
+theorem evalMemoEach_untracked (H : Bytes → Bytes) :
+    ∀ (ps : List Pre) (m : Memo), Pre.untrackedList ps = true → evalMemoEach H ps m = (evalPureEach H ps, m)
+  | [], m, _ => by simp [evalMemoEach, evalPureEach]
+  | p :: ps, m, h => by
+    simp only [Pre.untrackedList, Bool.and_eq_true] at h
+    simp only [evalMemoEach, evalPureEach, evalMemo_untracked H p m h.1, evalMemoEach_untracked H ps m h.2]
+end
+
 end PydraModel.Hash
